@@ -35,7 +35,7 @@ let conc_ev tok =
   | ["D"; t] -> EvDelete (n t)
   | ["G"; t; u] -> EvGive (n t, n u)
   | ["U"; t] -> EvUse (n t)
-  | _ -> EvDelete (nat_of_int 1000000)   (* an action the model does not have (e.g. a plain store): never enabled *)
+  | _ -> EvDelete (nat_of_int 999)   (* an action the model does not have (e.g. a plain store): never enabled *)
 
 let show_var = function
   | VDead -> "-"
